@@ -62,6 +62,9 @@ CHECKS = {
  "C19": ("exploration", "differential property test of the mlar binary against a harness re-implementation of the README algorithm (own ChaCha20 block function, HKDF-SHA512) over generated seeds, parent key forms and path lists",
          "For generated seeds (unicode, empty, long), parent keys (unclamped / clamped X25519 DER, Ed25519 DER, PEM) and path lists (1..4, repeated, empty), the files written by `mlar keygen --seed` and `mlar keyderive` must equal the documented algorithm, be reproducible, compose path by path, and the .pub file must match the private file.",
          "Open finding keyderive-ikm-not-clamped is reported as KNOWN-FINDING and only suppresses outputs that equal the unclamped-IKM variant for parents not in clamped form. Trusts sha2, hkdf, x25519-dalek as primitives.", "DESIGN.md section 4 C19"),
+ "C20": ("exploration", "stateful property test of the C entry points of libmla.so (dlopen, Rust callbacks) in worker processes: generated op sequences x write/read callback schedules x failure and null-handle placements, Rust reader and model as oracle",
+         "Archives written through mla_config_* / mla_archive_* with write callbacks accepting any part of each buffer must be read by the Rust reader to exactly the files passed in; mla_roarchive_extract with throttled read/seek callbacks must hand each accepted writer exactly its file; every call with a null or interface-cleared handle and every call after a failing callback must return a status, and the worker process must survive.",
+         "libmla.so is built in the dev profile; the C header is transcribed by hand into the driver (mla.h).", "DESIGN.md section 4 C20"),
 }
 NOT_YET = "check not built yet (work in progress, see DESIGN.md section 8)"
 
